@@ -162,6 +162,27 @@ def check(case, rec: Rec) -> None:
             if mv["marker"]:
                 rec.label("marker")
             rec.info["moves"] = rec.info.get("moves", 0) + 1
+        # refusals: an unknown ZID, and a missing destination no template pattern matches -- the
+        # command must not report success and must not touch any file
+        zdir = box / "refuse"
+        shutil.copytree(base, zdir)
+        before = env.read_tree(zdir)
+        some = rows[0]["zid"] if rows else None
+        for args in (["note", "move", "991231#zy", sorted(files)[0]],
+                     ["note", "move", some, "nowhere/none.zo"] if some else None):
+            if args is None:
+                continue
+            with rec.sut("note-move-refused"):
+                r = env.zorg(zdir, *args, config=cfg)
+            if r.code == 0:
+                raise Violation("impossible-move-reports-success", f"`zorg {' '.join(args)}` exited 0",
+                                case={"dir": case["dir"], "today": case["today"], "moves": []})
+            if env.read_tree(zdir) != before:
+                # (the statement only speaks about successful moves: recorded, not a violation)
+                rec.label("note:refused-move-changed-files")
+                before = env.read_tree(zdir)
+        shutil.rmtree(zdir, ignore_errors=True)
+        rec.label("refusals")
     rec.nontrivial = nontriv >= 1
 
 
